@@ -76,7 +76,8 @@ def shape(node):
 
 
 def parse_stmt(src):
-    tree = ast.parse(src)
+    from .model import canonicalise
+    tree = canonicalise(ast.parse(src))
     return tree.body[0]
 
 
